@@ -234,6 +234,9 @@ def client_programs(c):
           if op == 'create':
             study = clients.Study.from_study_config(make_config(), owner='o', study_id='s')
             out.append('study:' + study.resource_name)
+          elif op == 'create_long':
+            study = clients.Study.from_study_config(make_config(), owner='o', study_id='n' * step[1])
+            out.append('study-len:%d' % len(study.resource_name))
           elif op == 'suggest':
             dep.script.alg = step[3]
             ts = study.suggest(count=step[1], client_id=step[2])
@@ -366,6 +369,25 @@ def client_programs(c):
                   'on a study with five trials of 1 MiB metadata each, step %d (%s) observes %s in-process but %s through the %s deployment' % (
                       i, ['create', 'add', 'add', 'add', 'add', 'add', 'list', 'optimal'][i], json.dumps(big['local'][i])[:100], json.dumps(big[kind][i])[:160], kind),
                   {'deployment': kind, 'program': 'create; 5 x add_trial(completed, metadata blob of 2^20 chars); list; optimal', 'local': big['local'], kind: big[kind]})
+  # a study whose NAME is long (20000 characters): every refusal names the study, and error details travel in gRPC's
+  # trailing metadata (16 KB hard limit on the client side)
+  longn = {}
+  for kind in KINDS:
+    d = deploy.Deployment(kind, 'ram')
+    try:
+      longn[kind] = run_program(d, [('create_long', 20000), ('get_trial', 7), ('set_state', 'COMPLETED'),
+                                    ('suggest', 1, 'w', {'kind': 'ok', 'sugg': [{'params': 1, 'md': []}], 'delta': []}), ('add_trial', 0.5, True)])
+      c.traces += 1
+    finally:
+      d.close()
+  c.count(1, ('c08-long-name',), kind='c08-long-name')
+  for kind in ('grpc', 'split'):
+    if longn[kind] != longn['local']:
+      i = next(i for i, (a, b) in enumerate(zip(longn['local'], longn[kind])) if a != b)
+      c.prop_fail('client-observation-differs:long-name',
+                  'on a study with an id of 20000 characters, step %d (%s) observes %s in-process but %s through the %s deployment' % (
+                      i, ['create', 'get_trial(7)', 'set_state(COMPLETED)', 'suggest', 'add_trial'][i], json.dumps(longn['local'][i])[:100], json.dumps(longn[kind][i])[:160], kind),
+                  {'deployment': kind, 'program': 'create study with id n*20000; get_trial(7); set_state(COMPLETED); suggest; add_trial', 'local': longn['local'], kind: longn[kind]})
   wo = globals().get('_c08_witness', {})
   for kind in ('grpc', 'split'):
     if kind in wo and 'local' in wo and wo[kind] != wo['local']:
